@@ -41,7 +41,7 @@ static FILE *report = NULL;
 static const char *dump_path = NULL;
 static long dump_every = 1, dump_off = 0, dump_max = 0, dumps_done = 0;
 static long n_collect = 0, n_forced = 0, n_safepoints = 0, n_checked = 0, max_nodes = 0, n_findings = 0, n_opaque_coll = 0;
-static long n_envmode = 0;
+static long n_envmode = 0, n_pending_streams = 0;
 static long tot_nodes = 0, tot_edges = 0, tot_freed = 0, tot_weak_cleared = 0;
 
 static uint64_t sm64(void) {
@@ -227,8 +227,14 @@ static void abstract_edges(JanetAbstractHead *h, Node *n, sink_fn sink, void *u)
     } else if (t == &janet_parser_type) {
         JanetParser *ps = p;
         vals(ps->args, (int64_t) ps->argcount, 0, "parser.args", sink, u);
-        if ((ps->flag & 2 /* JANET_PARSER_GENERATED_ERROR, private to parse.c */) && ps->error)
-            sink(u, &janet_string_head((const uint8_t *) ps->error)->gc, 0, "parser.error");
+        /* parser->error is either a static C string or the data of a janet string allocated by delim_error.  The
+         * collector decides by a flag bit; this enumerator decides by the pointer itself: if it is the payload of a
+         * listed string block, the parser references that block. */
+        if (ps->error) {
+            JanetGCObject *sb = &janet_string_head((const uint8_t *) ps->error)->gc;
+            int32_t j = node_find(sb);
+            if (j >= 0 && nodes[j].kind == JANET_MEMORY_STRING) sink(u, sb, 0, "parser.error");
+        }
     } else if (t == &janet_peg_type) {
         JanetPeg *pg = p;
         vals(pg->constants, pg->num_constants, 0, "peg.constants", sink, u);
@@ -625,6 +631,37 @@ static void midpoint_hook(void) {
             fr = sf->prevframe;
         }
     }
+    /* 3c. objects the event loop still owes a wake-up must be rooted: a stream with a pending read and/or write is
+     * gc-rooted once per pending operation (janet_async_start_fiber roots, janet_async_end unroots), and a fiber
+     * suspended in an async operation is reachable (through its stream).  Checked on ALL listed blocks, marked or not. */
+    for (size_t i = 0; i < nnodes; i++) {
+        Node *n = &nodes[i];
+        if (n->threaded) continue;
+        if (n->kind == JANET_MEMORY_ABSTRACT && ((JanetAbstractHead *) n->p)->type == &janet_stream_type) {
+            JanetStream *st = (JanetStream *)((JanetAbstractHead *) n->p)->data;
+            long pending = 0;
+            if (st->read_fiber) pending++;
+            if (st->write_fiber && st->write_fiber != st->read_fiber) pending++;
+            if (!pending) continue;
+            long rooted = 0;
+            for (size_t r = 0; r < janet_vm.root_count; r++)
+                if (janet_checktype(janet_vm.roots[r], JANET_ABSTRACT) && janet_unwrap_abstract(janet_vm.roots[r]) == (void *) st) rooted++;
+            n_pending_streams++;
+            if (!n->reach) {
+                n_findings++;
+                rep("FINDING pending-op-object-unrooted collection=%ld object=stream pending-ops=%ld gcroots=%ld marked=%d\n", n_collect, pending, rooted, n->marked);
+            } else if (rooted < pending) {
+                n_findings++;
+                rep("FINDING pending-op-root-count collection=%ld stream has %ld pending operation(s) but %ld gc root(s)\n", n_collect, pending, rooted);
+            }
+        } else if (n->kind == JANET_MEMORY_FIBER) {
+            JanetFiber *f = (JanetFiber *) n->p;
+            if (f->ev_callback && f->ev_stream && !n->reach) {
+                n_findings++;
+                rep("FINDING pending-op-object-unrooted collection=%ld object=fiber-suspended-in-async-op marked=%d\n", n_collect, n->marked);
+            }
+        }
+    }
     if (opaque) n_opaque_coll++;
     n_checked++;
     /* 4. dump for the model */
@@ -754,8 +791,8 @@ static void midpoint_hook(void) {
 
 static void at_exit_report(void) {
     if (!report) return;
-    fprintf(report, "SUMMARY collections=%ld forced=%ld safepoints=%ld checked=%ld max_nodes=%ld nodes=%ld edges=%ld freed=%ld findings=%ld opaque_collections=%ld dumps=%ld\n",
-            n_collect, n_forced, n_safepoints, n_checked, max_nodes, tot_nodes, tot_edges, tot_freed, n_findings, n_opaque_coll, dumps_done);
+    fprintf(report, "SUMMARY collections=%ld forced=%ld safepoints=%ld checked=%ld max_nodes=%ld nodes=%ld edges=%ld freed=%ld findings=%ld opaque_collections=%ld dumps=%ld pending_streams=%ld\n",
+            n_collect, n_forced, n_safepoints, n_checked, max_nodes, tot_nodes, tot_edges, tot_freed, n_findings, n_opaque_coll, dumps_done, n_pending_streams);
     fprintf(report, "LABELS");
     for (int l = 0; l < nlabels; l++) fprintf(report, " %s=%ld/%ld", labels[l], label_edges[l], label_crit_max[l]);
     fprintf(report, "\n");
